@@ -4,6 +4,7 @@ CONSTANTS MaxBlock = 3 MaxOps = 7 MaxLen = 7
   Takes = {0, 1}
   Srcs = {"iter", "list"}
   SplitBufs <- SplitBufsQuick
+  Rets = {"gen", "own", "iter", "tuple"}
   Variant = "intended"
 INVARIANT RunIsBlocks
 INVARIANT RunPrefix
@@ -13,6 +14,7 @@ INVARIANT ResultCount
 INVARIANT Terminates
 INVARIANT Accounted
 INVARIANT ConcatEqRun
+INVARIANT RetIndependent
 INVARIANT YorFlushes
 INVARIANT AfterRequest
 INVARIANT OneBlock
